@@ -52,7 +52,8 @@ Inductive cev :=
 | CApprove | CAbort                      (* Approve/AbortPendingHandshake *)
 | CClose (safe : bool)                   (* CloseConnection(safe, code, reason) *)
 | CSpineWrite                            (* WriteShipMessageWithPayload *)
-| CDeferred.                             (* the pending time.After goroutines have run *)
+| CDeferred                              (* the pending time.After goroutines have run *)
+| CNop.                                  (* an event the environment cannot produce in this state *)
 
 (* an event with the environment's answers during it: is the SKI paired, is auto-accept on,
    may we keep waiting for trust, and after how many further data-writer calls (closed
@@ -72,7 +73,7 @@ Inductive cobs :=
 | BEv (e : cevx)                    (* input marker, written by the harness *)
 | BReport (s : N) (e : bool)        (* HandleShipHandshakeStateUpdate(state, error != nil) *)
 | BWrite (m : smsg) (ok : bool)     (* WriteMessageToWebsocketConnection and its result *)
-| BPairedQ | BAutoQ | BAllowQ       (* info-provider queries *)
+| BPairedQ (a : bool) | BAutoQ (a : bool) | BAllowQ (a : bool)   (* info-provider queries and their answers *)
 | BSetup | BShipId | BDeliver | BFlush (* SetupRemoteDevice, ReportServiceShipID, payload to reader, buffered payloads to reader *)
 | BBuffer                           (* payload appended to the SPINE buffer (not externally visible) *)
 | BCloseData (k : ccode)            (* CloseDataConnection(code, reason) *)
@@ -96,13 +97,14 @@ Record cs := mkCs {
   d1000 : bool;        (* pending: CloseConnection(false,4452) after 1 s *)
   idknown : bool;      (* remoteShipID != "" *)
   dead : bool;         (* panicked or deadlocked *)
+  ran : bool;          (* Run() was called (ghost, for realisability of events) *)
   out : list cobs      (* observations of the current event, newest first *)
 }.
 #[export] Instance etaCs : Settable _ :=
-  settable! mkCs <c_role; st; err; armed; tty; reader; once; wclosed; wleft; d500; d1000; idknown; dead; out>.
+  settable! mkCs <c_role; st; err; armed; tty; reader; once; wclosed; wleft; d500; d1000; idknown; dead; ran; out>.
 
 Definition init_cs (r : role) (idk : bool) : cs :=
-  mkCs r 0 false false 0 false false false None false false idk false [].
+  mkCs r 0 false false 0 false false false None false false idk false false [].
 
 Definition emit (o : cobs) (c : cs) : cs := c <| out := o :: out c |>.
 
@@ -150,10 +152,11 @@ Definition close_conn (safe : bool) (k : ccode) (c : cs) : cs :=
   let c := stop c in
   let he := is_handshake_end (st c) in
   if safe && N.eqb (st c) 38 then
-    (* sendShipModel(announce): shipMessage asks IsDataConnectionClosed; if closed it calls
-       CloseConnection again from inside the once body: sync.Once is not re-entrant *)
+    (* the announce is only written if the transport is still open; otherwise close at once *)
     let '(c, closed) := wtick c in
-    if closed then emit BHang c <| dead := true |>
+    if closed then
+      let c := close_data k c in
+      emit (BClosedCb he) c <| once := true |>
     else
       let '(c, _) := raw_write SCloseAnnounce c in
       c <| once := true |> <| d500 := true |>
@@ -188,7 +191,7 @@ Definition dec_prot (m : msg) : protc := match m with MProt p => p | _ => ProtEr
 Definition dec_pin (m : msg) : pinc := match m with MPin p => p | _ => PinErr end.
 Definition dec_acc (m : msg) : accc := match m with MAcc a => a | _ => AccNeither end.
 
-Definition allow_q (e : cevx) (c : cs) : cs * bool := (emit BAllowQ c, e_allow e).
+Definition allow_q (e : cevx) (c : cs) : cs * bool := (emit (BAllowQ (e_allow e)) c, e_allow e).
 
 (* ------------------------------------------------------------------ handleState *)
 Fixpoint handle (fuel : nat) (e : cevx) (timeout : bool) (m : msg) (c : cs) : cs :=
@@ -224,10 +227,10 @@ Fixpoint handle (fuel : nat) (e : cevx) (timeout : bool) (m : msg) (c : cs) : cs
       | _ => end_err c
       end
   | 6 =>
-      let c := emit BPairedQ c in
+      let c := emit (BPairedQ (e_paired e)) c in
       let trusted :=
         if e_paired e then (c, true)
-        else let c := emit BAutoQ c in
+        else let c := emit (BAutoQ (e_auto e)) c in
              if e_auto e then (c, true)
              else (c, match c_role c with Client => true | Server => false end) in
       let '(c, t) := trusted in
@@ -306,7 +309,7 @@ Fixpoint handle (fuel : nat) (e : cevx) (timeout : bool) (m : msg) (c : cs) : cs
       | Prot PAnnounce _ _ =>
           let c := stop c in
           let '(c, ok) := send SProtSelect c in
-          let c := if ok then c else end_err c in       (* no return after the failed send *)
+          if negb ok then end_err c else
           let c := arm 0 (stop c) in
           set_state 21 false c
       | _ => end_err c
@@ -321,7 +324,6 @@ Fixpoint handle (fuel : nat) (e : cevx) (timeout : bool) (m : msg) (c : cs) : cs
       let c := stop c in
       match dec_prot m with
       | ProtErr => abort_prot 2 c
-      | Prot _ _ FEmpty => emit BPanic c <| dead := true |>   (* Format[0] on an empty, non-nil slice *)
       | Prot PSelect true FUtf8 =>
           let c := stop c in
           let '(c, ok) := send SProtSelect c in
@@ -371,27 +373,26 @@ Definition ev_id_empty (e : cev) : bool :=
 
 Definition cstep_body (e : cevx) (c : cs) : cs :=
   match ev e with
-  | CRun => handle FUEL e false MNil c
+  | CRun => let c := c <| ran := true |> in if once c then c else handle FUEL e false MNil c
+  | CNop => c
   | CRecv dg cl m =>
       match dg with
       | DgErr | DgNoPayload => c
       | DgOk => if reader c then emit BDeliver c else emit BBuffer c
       | NotDatagram =>
+          if once c then c else
           match cl with
           | ClAnnounce =>
               let '(c, _) := send SCloseConfirm c in
-              if dead c then c else
-              let c := close_data (K4001 true) c in
-              emit (BClosedCb (N.eqb (st c) 38)) c
-          | ClConfirm =>
-              let c := close_data (K4001 true) c in
-              emit (BClosedCb (N.eqb (st c) 38)) c
+              close_conn false (K4001 true) c
+          | ClConfirm => close_conn false (K4001 true) c
           | ClOther => c
           | NoClose => handle FUEL e false m c
           end
       end
   | CTimeout => if armed c then handle FUEL e true MNil (c <| armed := false |>) else c
   | CConnErr =>
+      let c := c <| wclosed := true |> in      (* the websocket layer sets its closed flag before it reports *)
       if N.eqb (st c) 8 then close_conn false (K4001 false) (set_state 17 false c)
       else if N.eqb (st c) 16 then close_conn false (K4001 false) c
       else if N.eqb (st c) 14 || N.eqb (st c) 15 then close_conn false K4452 c
@@ -401,13 +402,13 @@ Definition cstep_body (e : cevx) (c : cs) : cs :=
         emit (BReport 39 true) c
   | CWClosed => c <| wclosed := true |>
   | CApprove =>
-      if N.eqb (st c) 11 then
+      if N.eqb (st c) 11 && negb (once c) then
         let c := stop c in
         let c := handle FUEL e false MNil (set_state 7 false c) in
-        handle FUEL e false MNil (set_state 13 false c)
+        if N.eqb (st c) 8 then handle FUEL e false MNil (set_state 13 false c) else c
       else c
   | CAbort =>
-      if N.eqb (st c) 11 || N.eqb (st c) 8 then
+      if (N.eqb (st c) 11 || N.eqb (st c) 8) && negb (once c) then
         handle FUEL e false MNil (set_state 14 false (stop c))
       else c
   | CClose safe => close_conn safe KUser c
